@@ -164,7 +164,8 @@ class LetFiller(Visitor):
         """Return the value for the given constant defined either in the
         override_dict or in the circuit itself."""
         if const.name in self.override_dict:
-            return self.override_dict[const.name]
+            # Like a declared value, 4.0 stands for the integer 4
+            return circuitbuilder.as_integer(self.override_dict[const.name])
         if isinstance(const.value, (int, float)):
             return const.value
         else:
